@@ -9,6 +9,7 @@
      BYTES <a> <hex>                               Name.Bytes
      BRT <a> ok <name> | err | panic               NameFromBytes(Name.Bytes())
      FROMBYTES <hex> ok <name> | err               NameFromBytes
+     CFB <hex> ok=<comp> | err | panic             ComponentFromBytes
      HASH <a> <0|1>                                relational hash checks done in Go (1 = held)
      STR <a> <hex>                                 Name.String
      RT <a> ok <name> | err | panic                NameFromStr(Name.String())
@@ -149,6 +150,10 @@ let () =
           cmpstr "BRT" m (String.concat " " rest);
           let r = match rest with ["ok"; n] -> Some (name_of_string n) | _ -> None in
           if not (brt_ok na r) then specfail "BRT" "NameFromBytes(n.Bytes()) <> n (brt_ok): the encoding does not determine the name"
+      | ["CFB"; h; r] ->
+          let m = match comp_from_bytes (unhexf h) with Some c -> "ok=" ^ string_of_comp c | None -> "err" in
+          cmpstr "CFB" m r;
+          if r = "panic" then specfail "CFB" "ComponentFromBytes panicked"
       | ["HASH"; a; ok] -> if ok <> "1" then specfail "HASH" "equal names hash differently or PrefixHash[i] <> Hash(prefix i)"
       | ["STR"; a; h] ->
           cmpstr "STR" (hexf (name_to_str (name_of_string a))) h
